@@ -18,7 +18,9 @@ PROPERTY = "C02"
 RULE = ("combi: (d in 1..3 (4 thorough), 1<=lmin<=5, lmax=lmin+0..5 (mostly <=3), box [a,b] per dimension from integers / dyadics / non-dyadic "
         "floats / narrow boxes far from the origin, TrapezoidalGrid boundary on|off, operation Integration|Interpolation, "
         "integrator default|'old', a permutation of the observation blocks integrate / points / call / interpolate_grid / "
-        "points-and-weights, optionally after the same objects have been used for another (lmin,lmax)). The integrand is "
+        "points-and-weights, optionally after the same objects have been used for another (lmin,lmax); 3 of 8 boxes are scaled as a "
+        "whole or per dimension by s in {2^-30,1e-9,1e-6,1e-3,1e3,2^20} (unusual units); with boundary=False 4 of 7 cases add "
+        "0.25*prod(t(1-t))^-1/2 to the driver, which on the boundary of the box is inf, nan or raises ZeroDivisionError). The integrand is "
         "one vector-valued FunctionCustom = [smooth driver, pseudo-random table on the grid points, 3 nodal unit functions, up to 8 random hierarchical hat functions of the scheme's space (biased "
         "to the deepest admissible levels), one random combination of up to 300 basis functions of the space]. Sizes are "
         "limited by construction through a budget on the total number of component-grid points. Non-trivial = d>=2 and "
@@ -41,6 +43,12 @@ ASSUMPTIONS = [
     "boundary points are off'); with boundary=True this follows from the statement by linearity",
     "the integral of an arbitrary function must equal the integral of its sparse-grid interpolant: follows from the "
     "statement because the quadrature is a weighted sum of values at component-grid points",
+    "every tolerance is relative to the box volume and the magnitude of the function (no absolute terms), so boxes in "
+    "unusual units (scaled by 2^-30 .. 2^20) are held to the same relative accuracy; the smooth driver is evaluated in the "
+    "unscaled units so that it does not degenerate to a linear function on a tiny box",
+    "with boundary=False the values of the function ON the boundary of the box are irrelevant by definition of the "
+    "zero-boundary interpolant: a function that is inf/nan or raises there must give the same (finite) results as required "
+    "for any other function; a nan/inf result where the oracle determines a finite value is a deviation",
     "interpolation points are generated inside the closed box [a,b] (the interpolant is only defined there; scipy's interpn, "
     "which the library delegates to, raises for points outside)",
     "the sparse-grid-interpolant oracle for arbitrary functions is skipped (counted as class sgi-oracle-skipped(size)) when the "
@@ -174,7 +182,12 @@ class Model:
         self.coefs = rng.normal(size=len(self.comb))
         self.basis_fun = Basis(self.sel + self.comb, self.a, self.b)
         # arbitrary functions
-        self.driver = drive.driver_function(dim, case["rng"])
+        drv = drive.driver_function(dim, case["rng"])
+        bs = [float(v) for v in (case.get("boxscale") or [1.0] * dim)]
+        self.driver = lambda x: drv(tuple(x[d] / bs[d] for d in range(dim)))     # the driver sees the box in its original units
+        # optional singular term of the driver: 0.25 * prod_d (t_d (1 - t_d))^-1/2, finite inside, inf / nan / raising on the
+        # boundary of the box (the classical reason for grids without boundary points)
+        self.singular = case.get("singular") if not boundary else None
         nn = min(3, len(self.sparse))
         self.nodal = [self.sparse_keys[i] for i in sorted(rng.choice(len(self.sparse), size=nn, replace=False))] if nn else []
         self.n_arb = 2 + len(self.nodal)
@@ -187,24 +200,47 @@ class Model:
         self.memo = {}
         self.calls = 0
 
-    def f(self, x):
+    def singular_term(self, xt, safe):
+        den = 1.0
+        for d in range(self.dim):
+            t = (xt[d] - self.a[d]) / (self.b[d] - self.a[d])
+            den *= t * (1.0 - t)
+        if den <= 0.0:                      # on the boundary of the box
+            if safe or self.singular == "nan":
+                return math.nan
+            if self.singular == "inf":
+                return math.inf
+        return 0.25 / math.sqrt(den)        # mode "raise": ZeroDivisionError on the boundary, as 1/sqrt(t(1-t)) does
+
+    def f(self, x, safe=False):
+        """the integrand as the library sees it (safe=False); the oracle calls it with safe=True, which only matters on the
+        boundary of the box for the singular driver (nan instead of inf / an exception; the oracle never uses that value)"""
         xt = tuple(float(v) for v in x)
         hit = self.memo.get(xt)
         if hit is not None:
             return hit
         self.calls += 1
         key = relkey(xt, self.a, self.b)
-        vals = [self.driver(xt), table_value(key, self.case["rng"])] + [1.0 if key == nk else 0.0 for nk in self.nodal]
+        drv = self.driver(xt)
+        if self.singular:
+            drv = drv + self.singular_term(xt, safe)
+            if safe and math.isnan(drv):
+                return self._rest(xt, key, drv)         # not memoised: the library-facing value differs
+        vals = self._rest(xt, key, drv)
+        self.memo[xt] = vals
+        return vals
+
+    def _rest(self, xt, key, drv):
+        vals = [drv, table_value(key, self.case["rng"])] + [1.0 if key == nk else 0.0 for nk in self.nodal]
         if self.sel or self.comb:
             hv = self.basis_fun.at_point(xt)
             vals += [float(v) for v in hv[:self.n_sel]] + [float(np.dot(self.coefs, hv[self.n_sel:]))]
         else:
             vals += [0.0]
-        self.memo[xt] = vals
         return vals
 
     def values(self, pts):
-        return np.array([self.f(p) for p in pts], dtype=float).reshape(len(pts), self.ncomp)
+        return np.array([self.f(p, safe=True) for p in pts], dtype=float).reshape(len(pts), self.ncomp)
 
     def deep_function_present(self):
         return any(sum(max(k, self.lmin) for k, i in fn) > self.dim * self.lmin for fn in self.sel)
@@ -445,7 +481,8 @@ def run_combi(case, corrupt=None):
     elif ig.shape != (len(cross), ncomp) or ic.shape != ig.shape:
         out.bad(sub + "/interpolate_grid/result-shape", "interpolate_grid %s, __call__ %s for %d points" % (ig.shape, ic.shape, len(cross)))
     else:
-        D = np.abs(ig - ic) / full_scale[None, :]
+        with np.errstate(invalid="ignore"):
+            D = np.where((ig == ic) | (np.isnan(ig) & np.isnan(ic)), 0.0, np.abs(ig - ic) / full_scale[None, :])
         info["err_igrid_vs_call"] = float(np.max(D))
         fb = _first_bad(D, 1e-13)
         if fb:
@@ -475,27 +512,37 @@ def run_combi(case, corrupt=None):
 
         def compare(expP, expC):
             found = []
-            EP = np.abs(vals - expP) / full_scale[None, :]
-            EC = np.abs(ig - expC) / full_scale[None, :]
+            with np.errstate(invalid="ignore"):
+                EP = np.abs(vals - expP) / full_scale[None, :]
+                EC = np.abs(ig - expC) / full_scale[None, :]
+            KP, KC = ~np.isnan(expP), ~np.isnan(expC)          # where the oracle determines the value
+            FP, FC = np.isfinite(vals), np.isfinite(ig)
             regions = [
-                ("call/arbitrary-function-not-reproduced-at-sparse-grid-point", EP[:nS, :na], P[:nS], 0, "err_gridpoints"),
-                ("call/space-function-not-interpolated-exactly", EP[:, na:], P, na, "err_space_interp"),
-                ("call/differs-from-sparse-grid-interpolant", EP[nS:, :na], R, 0, "err_sgi"),
-                ("interpolate_grid/space-function-not-interpolated-exactly", EC[:, na:], cross, na, "err_igrid_space"),
-                ("interpolate_grid/differs-from-sparse-grid-interpolant", EC[:, :na], cross, 0, "err_igrid_sgi"),
+                ("call/arbitrary-function-not-reproduced-at-sparse-grid-point", EP[:nS, :na], KP[:nS, :na], FP[:nS, :na], P[:nS], 0, "err_gridpoints"),
+                ("call/space-function-not-interpolated-exactly", EP[:, na:], KP[:, na:], FP[:, na:], P, na, "err_space_interp"),
+                ("call/differs-from-sparse-grid-interpolant", EP[nS:, :na], KP[nS:, :na], FP[nS:, :na], R, 0, "err_sgi"),
+                ("interpolate_grid/space-function-not-interpolated-exactly", EC[:, na:], KC[:, na:], FC[:, na:], cross, na, "err_igrid_space"),
+                ("interpolate_grid/differs-from-sparse-grid-interpolant", EC[:, :na], KC[:, :na], FC[:, :na], cross, 0, "err_igrid_sgi"),
             ]
             errs = {}
-            for name, E, where, c0, key in regions:
-                known = ~np.isnan(E)
+            for name, E, known, finite, where, c0, key in regions:
                 if E.size and np.any(known):
                     errs[key] = float(np.max(E[known])) / model.cond
-                badm = known & ~(E <= tol)
+                badm = known & ~(E <= tol)              # a nan / inf result where a value is expected is a deviation
                 if np.any(badm):
                     r, c = (int(v) for v in np.argwhere(badm)[0])
                     cols = sorted(set(c0 + int(cc) for rr, cc in np.argwhere(badm)))
                     rows = len(set(int(rr) for rr, cc in np.argwhere(badm)))
-                    found.append((name, _cause_names(model, cols), "%d of %d points; e.g. point %s component %d (%s): relative deviation %.3e" % (
-                        rows, len(where), where[r], c0 + c, model.names[c0 + c], E[r, c])))
+                    if np.all(~finite[badm]):
+                        cause = "non-finite-value-returned"
+                        if model.singular and cols == [0]:
+                            cause += "/only-for-the-function-that-is-non-finite-on-the-box-boundary"
+                    else:
+                        cause = _cause_names(model, cols)
+                    obs_arr = vals if name.startswith("call") else ig
+                    r_abs = r + (nS if name == "call/differs-from-sparse-grid-interpolant" else 0)
+                    found.append((name, cause, "%d of %d points; e.g. point %s component %d (%s): returned %r, relative deviation %.3e" % (
+                        rows, len(where), where[r], c0 + c, model.names[c0 + c], float(obs_arr[r_abs, c0 + c]), E[r, c])))
             return found, errs
 
         found, errs = compare(*expectation())
@@ -530,11 +577,22 @@ def run_combi(case, corrupt=None):
         out.cls("box=%s" % case["boxclass"])
     if case.get("warmup"):
         out.cls("objects-reused-after-another-scheme")
+    if model.singular:
+        out.cls("singular-on-boundary", "singular-on-boundary=%s" % model.singular)
+    _scale_classes(out, case)
     info["max_distinct_evaluations"] = model.calls
     info["max_dim"] = dim
     info["max_lmax"] = lmax
     out.info = info
     return out
+
+
+def _scale_classes(out, case):
+    bs = case.get("boxscale")
+    if bs:
+        out.cls(*["box-scale=%g" % v for v in sorted(set(bs))])
+        if len(set(bs)) > 1:
+            out.cls("box-scale=per-dimension-different")
 
 
 def run_scheme(case):
@@ -573,6 +631,7 @@ def run_scheme(case):
             out.bad(sub + "/points-and-weights/total-mass", "sum of combined weights %.15g, volume %.15g" % (float(np.sum(wts)), vol))
     out.nontrivial = bool(dim >= 2 and lmax > lmin)
     out.cls("d=%d" % dim, "lmin=%d" % lmin, "boundary=%s" % boundary)
+    _scale_classes(out, case)
     info["max_dim"] = dim
     info["max_lmax"] = lmax
     out.info = info
@@ -586,6 +645,22 @@ A_CH = [0.0, -1.0, 2.0, 0.3, -3.0]
 W_CH = [1.0, 3.0, 0.5, 0.7, math.pi + 3.0, 10.3]
 # boxes whose width is small compared with their distance from the origin (still perfectly representable)
 OFFSET_BOXES = [(1000.0, 1.0), (100.0, 0.0625), (-2000.0, 0.5), (2.0, 0.001), (1.0e4, 3.0)]
+
+
+# unusual units: the whole box (or every dimension separately) scaled by s
+BOX_SCALES = [2.0 ** -30, 1e-9, 1e-6, 1e-3, 1e3, 2.0 ** 20]
+
+
+def _draw_scale(draw, dim, a, b):
+    """returns (a, b, boxscale): box scaled as a whole, per dimension, or not at all (boxscale None)"""
+    mode = draw(st.sampled_from(["none"] * 5 + ["whole", "whole", "per-dimension"]))
+    if mode == "none":
+        return a, b, None
+    if mode == "whole":
+        bs = [draw(st.sampled_from(BOX_SCALES))] * dim
+    else:
+        bs = [draw(st.sampled_from(BOX_SCALES + [1.0])) for _ in range(dim)]
+    return [a[d] * bs[d] for d in range(dim)], [b[d] * bs[d] for d in range(dim)], bs
 
 
 def _draw_box(draw, dim):
@@ -620,7 +695,9 @@ def combi_strategy(tier):
             else:
                 diff -= 1
         a, b, cls = _draw_box(draw, dim)
-        return dict(dim=dim, lmin=lmin, lmax=lmin + diff, boundary=boundary, a=a, b=b, boxclass=cls,
+        a, b, bs = _draw_scale(draw, dim, a, b)
+        singular = draw(st.sampled_from([None, None, None, "inf", "inf", "nan", "raise"])) if not boundary else None
+        return dict(dim=dim, lmin=lmin, lmax=lmin + diff, boundary=boundary, a=a, b=b, boxclass=cls, boxscale=bs, singular=singular,
                     op=draw(st.sampled_from(["Integration", "Integration", "Interpolation"])),
                     integrator=draw(st.sampled_from(["default"] * 5 + ["old"])),
                     order=draw(st.permutations(list(range(len(BLOCKS))))),
@@ -643,7 +720,8 @@ def scheme_strategy(tier):
             else:
                 diff -= 1
         a, b, cls = _draw_box(draw, dim)
-        return dict(dim=dim, lmin=lmin, lmax=lmin + diff, boundary=draw(st.booleans()), a=a, b=b, boxclass=cls, rng=0)
+        a, b, bs = _draw_scale(draw, dim, a, b)
+        return dict(dim=dim, lmin=lmin, lmax=lmin + diff, boundary=draw(st.booleans()), a=a, b=b, boxclass=cls, boxscale=bs, rng=0)
     return s()
 
 
@@ -656,6 +734,12 @@ def combi_fixed():
                             op="Integration", integrator="default", order=[0, 1, 2, 3, 4], nbasis=8, rng=17 + dim))
             res.append(dict(dim=dim, lmin=lmin, lmax=lmax, boundary=boundary, a=[-3.0, 0.3, 2.0][:dim], b=[math.pi, 1.0, 2.5][:dim],
                             boxclass="generic", op="Interpolation", integrator="default", order=[2, 3, 1, 4, 0], warmup=[1, 2], nbasis=8, rng=5 + dim))
+    # functions that are not finite on the boundary of the box (boundary points off), boxes in unusual units
+    for i, (mode, s) in enumerate([("inf", 1.0), ("nan", 1e-9), ("raise", 2.0 ** 20), ("inf", 1e-6)]):
+        for dim, lmin, lmax in [(2, 1, 3), (3, 2, 3)]:
+            res.append(dict(dim=dim, lmin=lmin, lmax=lmax, boundary=False, a=[v * s for v in [-1.0, 0.3, 2.0][:dim]],
+                            b=[v * s for v in [2.0, 1.0, 2.5][:dim]], boxclass="generic", boxscale=None if s == 1.0 else [s] * dim, singular=mode,
+                            op="Integration", integrator="default", order=[[0, 1, 2, 3, 4], [2, 3, 0, 1, 4]][i % 2], nbasis=8, rng=31 + i))
     return res
 
 
